@@ -119,12 +119,11 @@ theorem lookupField_hid {hid pre : List Field} {n : String} (hvis : ∀ x ∈ hi
 
 /-- a member referenced by name: its integer local -/
 theorem Sim.int {σ : PyState} {st : DecState} {full hid pre : List Field} (h : Sim σ st hid pre) {n : String} {p : FK → Bool}
-    (hlk : ∀ n, (∀ x ∈ hid, x.name ≠ n) → lookupField full n = lookupField pre n)
-    (hvis : ∀ x ∈ hid, x.name ≠ n)
+    (hlk : lookupField full n = lookupField pre n)
     (href : refOk full n p = true) {i : Int} (hi : envInt st.env n = .ok i) :
     ∃ gk, gk ∈ pre ∧ gk.name = n ∧ p gk.kind = true ∧ σ.getInt (localName gk) = .ok i := by
   unfold refOk at href
-  rw [hlk n hvis] at href
+  rw [hlk] at href
   cases hl : lookupField pre n with
   | none => simp [hl] at href
   | some gk =>
@@ -146,9 +145,9 @@ variable {S : Schema} {T : String → Bytes → Bytes} {r : Rec} {d : StructDef}
 /-- what `decPayload` reads for a member, the emitted load expression reads too, and the emitted slice bound
     is the advance -/
 theorem payload_sim {σ : PyState} {st : DecState} {full hid pre : List Field} (hS : Sim σ st hid pre)
-    (hlk : ∀ n, (∀ x ∈ hid, x.name ≠ n) → lookupField full n = lookupField pre n)
     (hnn : ∀ ty b v, r.dec ty b = .ok v → v ≠ .none)
-    {f : Field} (hfresh : ∀ x ∈ pre, localName x ≠ localName f) (hvis : ∀ n ∈ refsOf f, ∀ x ∈ hid, x.name ≠ n)
+    {f : Field} (hfresh : ∀ x ∈ pre, localName x ≠ localName f)
+    (hlk : ∀ n ∈ refsOf f, lookupField full n = lookupField pre n)
     {isLast : Bool} (hwf : wfFieldAt S d full f isLast = true) (hg : wfgdKind f = true)
     {src : BufSrc} (hsrc1 : ∀ ty l, f.kind = .ref ty (some l) → src = .limited l)
     (hsrc2 : ∀ ty, f.kind = .ref ty none → src = .var "buffer")
@@ -210,7 +209,7 @@ theorem payload_sim {σ : PyState} {st : DecState} {full hid pre : List Field} (
       obtain ⟨n, hn, hpay⟩ := bind_eq_ok.mp hpay
       obtain ⟨hd, hadv⟩ := core _ hpay
       refine ⟨?_, hadv⟩
-      obtain ⟨gk, hgm, hgn, hgk, hgi⟩ := hS.int hlk (hvis _ (by simp [refsOf, hk])) hwf hn
+      obtain ⟨gk, hgm, hgn, hgk, hgi⟩ := hS.int (hlk _ (by simp [refsOf, hk])) hwf hn
       obtain ⟨w', s', hkk⟩ := isSizeOf_of hgk
       have h0 : 0 ≤ n := hS.nonneg gk hgm (by rw [hkk]; rfl) n (by rw [hgn]; exact envInt_ok hn)
       have hloc : localName gk = l := by rw [← hgn]; exact localName_raw (by rw [hgn]; exact hg.2)
@@ -224,7 +223,7 @@ theorem payload_sim {σ : PyState} {st : DecState} {full hid pre : List Field} (
     · rename_i hle
       simp only [Except.ok.injEq, Prod.mk.injEq] at hpay
       obtain ⟨rfl, rfl⟩ := hpay
-      obtain ⟨gk, hgm, hgn, hgk, hgi⟩ := hS.int hlk (hvis _ (by simp [refsOf, hk])) hwf hn
+      obtain ⟨gk, hgm, hgn, hgk, hgi⟩ := hS.int (hlk _ (by simp [refsOf, hk])) hwf hn
       obtain ⟨w', s', a', hkk⟩ := isCount_of hgk
       have h0 : 0 ≤ n := hS.nonneg gk hgm (by rw [hkk]; rfl) n (by rw [hgn]; exact envInt_ok hn)
       have hraw := rawNameOk_iff.mp hg.2
@@ -266,7 +265,7 @@ theorem payload_sim {σ : PyState} {st : DecState} {full hid pre : List Field} (
         obtain ⟨ss, hss, hpay⟩ := bind_eq_ok.mp hpay
         simp only [Except.ok.injEq, Prod.mk.injEq] at hpay
         obtain ⟨rfl, rfl⟩ := hpay
-        obtain ⟨gk, hgm, hgn, -, hgi⟩ := hS.int hlk (hvis _ (by simp [refsOf, hk])) href hn
+        obtain ⟨gk, hgm, hgn, -, hgi⟩ := hS.int (hlk _ (by simp [refsOf, hk])) href hn
         have hloc : localName gk = cf := by rw [← hgn]; exact localName_raw (by rw [hgn]; exact hg.2)
         rw [hloc] at hgi
         refine ⟨?_, ?_⟩
@@ -282,7 +281,7 @@ theorem payload_sim {σ : PyState} {st : DecState} {full hid pre : List Field} (
       · simp [bind, Except.bind, throw, throwThe, MonadExceptOf.throw] at hpay
       · simp only [Except.ok.injEq, Prod.mk.injEq] at hpay
         obtain ⟨rfl, rfl⟩ := hpay
-        obtain ⟨gk, hgm, hgn, hgk, hgi⟩ := hS.int hlk (hvis _ (by simp [refsOf, hk])) href hn
+        obtain ⟨gk, hgm, hgn, hgk, hgi⟩ := hS.int (hlk _ (by simp [refsOf, hk])) href hn
         obtain ⟨w', s', hkk⟩ := isByteSize_of hgk
         have h0 : 0 ≤ n := hS.nonneg gk hgm (by rw [hkk]; rfl) n (by rw [hgn]; exact envInt_ok hn)
         have hloc : localName gk = sf := by rw [← hgn]; exact localName_raw (by rw [hgn]; exact hg.2)
